@@ -180,11 +180,28 @@ def _conv(stmts: List[ast.stmt], mk_result) -> List[ast.stmt]:
     return out
 
 
+def _drop_self_assignments(stmts: List[ast.stmt]) -> List[ast.stmt]:
+    """`x = x` left behind when the helper's result variable and the caller's target have the same name"""
+    out = []
+    for st in stmts:
+        if isinstance(st, ast.Assign) and len(st.targets) == 1 and isinstance(st.targets[0], ast.Name) and isinstance(st.value, ast.Name) \
+                and st.targets[0].id == st.value.id:
+            continue
+        for fld in ("body", "orelse", "finalbody"):
+            b = getattr(st, fld, None)
+            if isinstance(b, list) and b and isinstance(b[0], ast.stmt):
+                nb = _drop_self_assignments(b)
+                setattr(st, fld, nb if (nb or fld != "body") else [ast.Pass()])
+        out.append(st)
+    return out
+
+
 class Inliner:
     def __init__(self, tree: ast.Module, modname: str):
         self.tree, self.modname = tree, modname
         self.count = 0
         self.k = 0
+        self.touched: List[ast.AST] = []
 
     def run(self) -> int:
         known = set(known_funcs().get(self.modname, []))
@@ -206,6 +223,8 @@ class Inliner:
         if self.count:
             self._drop_fully_inlined(known)
             ast.fix_missing_locations(self.tree)
+            for fn in self.touched:
+                renumber(fn)
         return self.count
 
     def _drop_fully_inlined(self, known: Set[str]) -> None:
@@ -263,6 +282,8 @@ class Inliner:
                                     ast.copy_location(x, st)
                         b[i:i + 1] = repl
                         self.count += 1
+                        if not any(caller is t for t in self.touched):
+                            self.touched.append(caller)
                         i += len(repl)
                     else:
                         i += 1
@@ -395,7 +416,7 @@ class Inliner:
         elif falls_off is None and not _always_terminates(body) and _has(body, ast.Return):
             # a path that falls off the end yields None
             pass
-        res = pre + out
+        res = _drop_self_assignments(pre + out)
         return res or [ast.Pass()]
 
     def _inline_generator(self, loop: ast.For, caller, h) -> Optional[List[ast.stmt]]:
@@ -447,6 +468,55 @@ class Inliner:
             if isinstance(t, ast.Name):
                 t.ctx = ast.Store()
         return pre + m.body
+
+
+def renumber(fn: ast.AST) -> None:
+    """After inlining, the statements of a function carry line numbers from two places (the caller and the helper's
+    definition). Rules that order things by line need them monotonic in execution order: every statement gets a fresh
+    number (fn.lineno + running index); the original number is kept in `_orig_lineno` for reports (Func.loc)."""
+    k = [getattr(fn, "lineno", 1)]
+
+    def stamp(node, ln):
+        for x in ast.walk(node):
+            if hasattr(x, "lineno"):
+                if not hasattr(x, "_orig_lineno"):
+                    x._orig_lineno = x.lineno
+                x.lineno = ln
+                x.end_lineno = ln
+
+    def visit(stmts):
+        for st in stmts:
+            k[0] += 1
+            ln = k[0]
+            # header expressions of compound statements, whole simple statements
+            if isinstance(st, (ast.If, ast.While)):
+                stamp(st.test, ln)
+            elif isinstance(st, (ast.For, ast.AsyncFor)):
+                stamp(st.target, ln); stamp(st.iter, ln)
+            elif isinstance(st, (ast.With, ast.AsyncWith)):
+                for it in st.items:
+                    stamp(it, ln)
+            elif isinstance(st, (ast.FunctionDef, ast.AsyncFunctionDef, ast.ClassDef, ast.Try)):
+                pass
+            else:
+                stamp(st, ln)
+            if not hasattr(st, "_orig_lineno"):
+                st._orig_lineno = getattr(st, "lineno", ln)
+            st.lineno = ln
+            st.end_lineno = ln
+            for fld in ("body", "orelse", "finalbody"):
+                b = getattr(st, fld, None)
+                if isinstance(b, list) and b and isinstance(b[0], ast.stmt) and not isinstance(st, (ast.FunctionDef, ast.AsyncFunctionDef, ast.ClassDef)):
+                    visit(b)
+            if isinstance(st, ast.Try):
+                for h in st.handlers:
+                    k[0] += 1
+                    if not hasattr(h, "_orig_lineno"):
+                        h._orig_lineno = getattr(h, "lineno", k[0])
+                    h.lineno = k[0]
+                    visit(h.body)
+
+    visit(fn.body)
 
 
 def inline_new_helpers(tree: ast.Module, modname: str) -> int:
